@@ -92,6 +92,7 @@ let dispatch (c : case) : string =
   if c.kind = "cmp" then run_cmp c else
   if c.kind = "legbig" then "" (* implementation-side oracle only: a 2.3 GiB legacy stream *) else
   if c.kind = "cmpbig" then "" (* implementation-side oracles only: sources of several megabytes *) else
+  if c.kind = "decbig" then "" (* implementation-side oracle only: literal runs and matches of a megabyte and more, expected output known by construction *) else
   if c.kind = "dec" then run_dec c else
   if String.length c.kind >= 3 && String.sub c.kind 0 3 = "xxh" then run_xxh c
   else failwith ("unknown kind " ^ c.kind)
